@@ -100,8 +100,9 @@ impl FixtureDatabase {
 
         // Use WalkDir with filter to skip large/irrelevant directories
         let walker = WalkDir::new(root_path).into_iter().filter_entry(|entry| {
-            // Allow files to pass through
-            if entry.file_type().is_file() {
+            // Allow files to pass through; the workspace root itself is never filtered
+            // (only directories below it are), whatever the root directory is called
+            if entry.file_type().is_file() || entry.depth() == 0 {
                 return true;
             }
             // For directories, check if we should skip them
@@ -134,8 +135,11 @@ impl FixtureDatabase {
 
             let path = entry.path();
 
-            // Skip files in filtered directories (shouldn't happen with filter_entry, but just in case)
-            if path.components().any(|c| {
+            // Skip files in filtered directories (shouldn't happen with filter_entry, but just in case).
+            // Only the part of the path below the workspace root counts: a project kept under
+            // e.g. `~/build/` or `~/env/` must still be indexed.
+            let relative_to_root = path.strip_prefix(root_path).unwrap_or(path);
+            if relative_to_root.components().any(|c| {
                 c.as_os_str()
                     .to_str()
                     .is_some_and(Self::should_skip_directory)
